@@ -2,6 +2,7 @@ package main
 
 import (
 	"fmt"
+	"go/constant"
 	"go/token"
 	"go/types"
 	"sort"
@@ -948,7 +949,7 @@ func c12Placeholders(c *Ctx, r *Report, rule string) {
 					}
 					k2, m2, on := setOf(c2)
 					if k2 == k && m2 == m && on != nil {
-						return strings.Contains(typeStr(on.Type()), "proxyprotocol.Conn") || derivesFrom(on, wrapper) || strings.HasSuffix(typeStr(on.Type()), "net.Conn")
+						return strings.Contains(typeStr(on.Type()), "proxyprotocol.Conn") || derivesFrom(on, wrapper)
 					}
 					// a helper of the package that sets the placeholder, on every path, from the connection it is given
 					h := c2.Common().StaticCallee()
@@ -1715,5 +1716,346 @@ func c04HeaderAddrs(c *Ctx, r *Report, rule string) {
 	}
 	if n == 0 {
 		r.ok(rule, "module", "uses of header addresses", "-", "no method is called on a header's SrcAddr()/DestAddr() result")
+	}
+}
+
+// c01PrefetchKeepsBytes: "no byte lost". A Read may deliver bytes together with an error (io.Reader; crypto/tls
+// does it for the last record of a client whose close_notify arrives in the same segment). The bytes are in the
+// matching buffer then; a prefetch that reports the error makes the router drop the connection with the client's
+// complete message unread. The error belongs to the next read, which returns it again without bytes.
+func c01PrefetchKeepsBytes(c *Ctx, r *Report, rule string) {
+	r.rule(rule, "prefetch over what the underlying Read returns (bytes and no error, bytes and io.EOF, bytes and another error, no bytes and an error): a read that delivered bytes is a successful prefetch - the error comes back with the next read - and only a read without bytes hands its error on", 4)
+	fnName := "layer4.(*Connection).prefetch"
+	fn := c.Fn(fnName)
+	if fn == nil {
+		r.bad(rule, fnName, "exists", "-", "function not found")
+		return
+	}
+	for _, t := range []struct {
+		name string
+		n    int64
+		err  string
+	}{{"5 bytes, no error", 5, ""}, {"5 bytes and io.EOF", 5, "EOF"}, {"5 bytes and a timeout", 5, "timeout"}, {"no bytes and io.EOF", 0, "EOF"}} {
+		for _, room := range []struct {
+			l, cp int64
+			name  string
+		}{{0, 2048, "room in the buffer"}, {100, 120, "temporary chunk"}} {
+			name := t.name + ", " + room.name
+			sc := &Scenario{Name: name, Heap: map[string]SV{"recv.buf": symSliceCap("recv.buf", room.l, room.cp)}, Params: map[string]SV{"recv": symRef("recv", false)}}
+			sc.Call = func(callee string, args []SV, ev *symEval, st *symState) (SV, bool) {
+				if strings.HasPrefix(callee, "invoke ") && strings.HasSuffix(callee, ".Read") {
+					e := symNil()
+					if t.err != "" {
+						e = SV{K: "ref", Known: true, Desc: "readErr:" + t.err}
+					}
+					return SV{K: "tuple", Desc: "rd", Elems: []SV{symInt(t.n), e}}, true
+				}
+				if strings.Contains(callee, "zap") || strings.Contains(callee, "Logger") || strings.Contains(callee, "RemoteAddr") {
+					return symOpaque("log"), true
+				}
+				return SV{}, false
+			}
+			paths, err := evalPaths(fn, sc)
+			if err != nil || len(paths) == 0 {
+				r.bad(rule, fnName, name, c.pos(fn.Pos()), fmt.Sprintf("undecided: %v", err))
+				continue
+			}
+			var problems []string
+			for _, p := range paths {
+				if len(p.Ret) != 1 {
+					problems = append(problems, "no result")
+					continue
+				}
+				got := p.Ret[0]
+				wantNil := t.n > 0 || t.err == ""
+				isNil := got.K == "ref" && got.Known && got.Nil
+				switch {
+				case wantNil && !isNil:
+					problems = append(problems, fmt.Sprintf("the read delivered %d bytes, prefetch reports %s: the router ends the connection with these bytes - already in the matching buffer - unread by any matcher or handler", t.n, got.Desc))
+				case !wantNil && (isNil || !strings.Contains(got.Desc, "readErr")):
+					problems = append(problems, "a read without bytes that failed is reported as "+got.Desc)
+				}
+			}
+			r.check(len(problems) == 0, rule, fnName, name, c.pos(fn.Pos()), "bytes delivered: success; none: the read's error", strings.Join(dedup(problems), "; "))
+		}
+	}
+}
+
+// c18BoundsCompared: "parsers reject, rather than truncate or pad, inputs of the wrong length". Where a codec package
+// states the size bounds of a message type as constants (<Type>BytesMin / <Type>BytesMax / <Type>BytesTotal), the
+// type's FromBytes compares the length of its input with each of them (itself or in a helper it calls in place).
+func c18BoundsCompared(c *Ctx, r *Report, rule string) {
+	r.rule(rule, "wire-message parsers: for every message type whose package defines <Type>BytesMin, <Type>BytesMax or <Type>BytesTotal, FromBytes compares len(input) with each constant the package defines for the type (types whose accepted lengths C18.R1 decides by evaluation are left to it)", 1)
+	n := 0
+	for _, fn := range c.Funcs {
+		if fn.Pkg == nil || fn.Signature.Recv() == nil || fn.Name() != "FromBytes" || len(fn.Params) < 2 || len(fn.Blocks) == 0 {
+			continue
+		}
+		switch fn.Pkg.Pkg.Path() {
+		case modPath + "/modules/l4openvpn", modPath + "/modules/l4wireguard", modPath + "/modules/l4winbox", modPath + "/modules/l4rdp":
+		default:
+			continue
+		}
+		tn := namedName(deref(fn.Signature.Recv().Type()))
+		if i := strings.LastIndex(tn, "."); i >= 0 {
+			tn = tn[i+1:]
+		}
+		if c18LayoutTypes[short(fn.Pkg.Pkg.Path())+"."+tn] {
+			continue // which lengths this parser accepts is decided by evaluation (C18.R1), however it rejects the others
+		}
+		// the lengths the input is compared with: len(src) against a constant, in fn and what it calls in place
+		seen := map[int64]bool{}
+		for g := range c.reachSync(fn) {
+			if g.Pkg != fn.Pkg {
+				continue
+			}
+			for _, b := range g.Blocks {
+				for _, in := range b.Instrs {
+					bo, ok := in.(*ssa.BinOp)
+					if !ok {
+						continue
+					}
+					switch bo.Op {
+					case token.LSS, token.LEQ, token.GTR, token.GEQ, token.EQL, token.NEQ:
+					default:
+						continue
+					}
+					for _, pr := range [][2]ssa.Value{{bo.X, bo.Y}, {bo.Y, bo.X}} {
+						k, isK := constInt(pr[1])
+						if !isK {
+							continue
+						}
+						v := pr[0]
+						for {
+							if cv, ok := v.(*ssa.Convert); ok {
+								v = cv.X
+								continue
+							}
+							break
+						}
+						if call, ok := v.(*ssa.Call); ok && calleeID(call) == "builtin len" {
+							seen[k] = true
+							// `len(src) < Min-1` style: also the neighbours for strict/non-strict spellings
+							seen[k+1], seen[k-1] = true, true
+						}
+					}
+				}
+			}
+		}
+		for _, suffix := range []string{"BytesMin", "BytesMax", "BytesTotal"} {
+			o := fn.Pkg.Pkg.Scope().Lookup(tn + suffix)
+			cst, ok := o.(*types.Const)
+			if !ok {
+				continue
+			}
+			v, ok := constant.Int64Val(constant.ToInt(cst.Val()))
+			if !ok {
+				continue
+			}
+			n++
+			r.check(seen[v], rule, fname(fn), tn+suffix, c.pos(fn.Pos()), fmt.Sprintf("len(input) is compared with %d", v), fmt.Sprintf("the package states %s%s = %d, but the parser never compares the length of its input with it: inputs beyond that bound are parsed (truncated or over-long messages are accepted) instead of being rejected", tn, suffix, v))
+		}
+	}
+	if n == 0 {
+		r.bad(rule, "codec packages", "bounds", "-", "no message type with size constants found")
+	}
+}
+
+// c18LayoutTypes: the message types whose accepted lengths are decided by the layout evaluation of C18.R1.
+var c18LayoutTypes = map[string]bool{
+	"modules/l4openvpn.MessagePlain": true, "modules/l4openvpn.MessageAuth": true, "modules/l4openvpn.MessageCrypt": true, "modules/l4openvpn.MessageCrypt2": true, "modules/l4openvpn.WrappedKey": true,
+	"modules/l4wireguard.MessageInitiation": true, "modules/l4wireguard.MessageTransport": true,
+	"modules/l4rdp.TPKTHeader": true, "modules/l4rdp.X224Crq": true, "modules/l4rdp.RDPNegReq": true, "modules/l4rdp.RDPCorrInfo": true, "modules/l4rdp.RDPToken": true,
+}
+
+// c08PooledPeerUntouched: a peer found in the package-level pool is the one the running configuration's connections
+// and health checker are working with. Provisioning a new configuration takes it as it is; writing one of its plain
+// fields (its address, say) is a data race with those readers - and changes where the running configuration dials.
+func c08PooledPeerUntouched(c *Ctx, r *Report, rule string) {
+	r.rule(rule, "Upstream.provision (and what it calls in place) stores into the fields of a peer only where that peer is the one it has just allocated - never into one taken from the shared pool", 0)
+	fn := c.Fn("modules/l4proxy.(*Upstream).provision")
+	if fn == nil {
+		r.bad(rule, "modules/l4proxy.(*Upstream).provision", "exists", "-", "function not found")
+		return
+	}
+	n := 0
+	for g := range c.reachSync(fn) {
+		if g.Pkg != fn.Pkg {
+			continue
+		}
+		for _, b := range g.Blocks {
+			for _, in := range b.Instrs {
+				st, ok := in.(*ssa.Store)
+				if !ok {
+					continue
+				}
+				base, sn, f, ok := fieldAddr(st.Addr)
+				if !ok || sn != "modules/l4proxy.peer" {
+					continue
+				}
+				n++
+				var foreign []string
+				for _, o := range origins(base, sliceOpts{}) {
+					if _, isAlloc := o.V.(*ssa.Alloc); isAlloc {
+						continue
+					}
+					foreign = append(foreign, o.Kind+":"+o.Desc)
+				}
+				r.check(len(foreign) == 0, rule, fname(g), fmt.Sprintf("store peer.%s#%d", f, n), c.ipos(st), "into the peer just allocated", "provisioning writes peer."+f+" of a peer that may be the one found in the shared pool ("+strings.Join(dedup(foreign), ", ")+"): the running configuration's connections and health checker read that field without synchronisation - a data race - and from then on dial what the configuration being provisioned says")
+			}
+		}
+	}
+	if n == 0 {
+		r.ok(rule, fname(fn), "stores into peers", c.pos(fn.Pos()), "provisioning stores into no field of a peer after creating it")
+	}
+}
+
+// c09NoticeMeansEnd: a close notice tells the loop that the association is over - the loop forgets it, and the
+// client's next datagram starts another. Read sends one when it gives up for good (idle expiry, closed); a Read that
+// merely ran into its deadline returns an error its caller may answer by reading again, so it must not send one.
+func c09NoticeMeansEnd(c *Ctx, r *Report, rule string) {
+	r.rule(rule, "UDP association: every path of Read that sends a close notice returns io.EOF (the association is over); no notice is sent on a path that returns the deadline error, after which the handler may go on reading", 1)
+	const anchor = "layer4.(*packetConn).Read"
+	fn := c.Fn(anchor)
+	if fn == nil {
+		r.bad(rule, anchor, "exists", "-", "function not found")
+		return
+	}
+	n := 0
+	for g := range c.reachSync(fn) {
+		if g.Pkg != fn.Pkg || g != fn {
+			continue
+		}
+		for _, b := range g.Blocks {
+			for _, in := range b.Instrs {
+				sd, ok := in.(*ssa.Send)
+				if !ok || chanID(sd.Chan) != "field layer4.packetConn.closeCh" && !strings.Contains(typeStr(sd.Chan.Type()), "packetConn") {
+					continue
+				}
+				n++
+				// every return reachable from the send
+				var bad []string
+				seen := map[*ssa.BasicBlock]bool{b: true}
+				work := []*ssa.BasicBlock{b}
+				first := true
+				for len(work) > 0 {
+					bb := work[len(work)-1]
+					work = work[:len(work)-1]
+					started := !first || false
+					for _, x := range bb.Instrs {
+						if first && !started {
+							if x == ssa.Instruction(sd) {
+								started = true
+							}
+							continue
+						}
+						if ret, ok := x.(*ssa.Return); ok && len(ret.Results) == 2 {
+							isEOF := false
+							for _, o := range origins(ret.Results[1], sliceOpts{}) {
+								if strings.Contains(o.Desc, "io.EOF") {
+									isEOF = true
+								}
+							}
+							if !isEOF {
+								bad = append(bad, c.ipos(ret))
+							}
+						}
+					}
+					first = false
+					for _, su := range bb.Succs {
+						if !seen[su] {
+							seen[su] = true
+							work = append(work, su)
+						}
+					}
+				}
+				r.check(len(bad) == 0, rule, anchor, fmt.Sprintf("notice#%d", n), c.ipos(sd), "followed by return io.EOF only", "after this close notice Read can return something other than io.EOF ("+strings.Join(bad, ", ")+"): the loop forgets an association whose handler is still reading - the client's next datagram starts a second connection and the first handler never sees it")
+			}
+		}
+	}
+	if n == 0 {
+		r.bad(rule, anchor, "notices", c.pos(fn.Pos()), "undecided: no close notice sent by Read found")
+	}
+}
+
+// c11EveryPeerProbed: active checks mark a peer down while it refuses connections - every peer, whatever its state.
+// The probe of a peer is started under no condition on that peer's counters or flags (a peer that still carries
+// old connections can have stopped accepting new ones).
+func c11EveryPeerProbed(c *Ctx, r *Report, rule string) {
+	r.rule(rule, "active health checker: the probe of a peer is started under no condition that reads the peer's own state (connection count, failures, health flag)", 1)
+	fn := c.Fn("modules/l4proxy.(*Handler).doActiveHealthCheckForAllHosts")
+	if fn == nil {
+		r.bad(rule, "modules/l4proxy.(*Handler).doActiveHealthCheckForAllHosts", "exists", "-", "function not found")
+		return
+	}
+	probe := c.Fn("modules/l4proxy.(*Handler).doActiveHealthCheck")
+	n := 0
+	var scan func(g *ssa.Function)
+	scanned := map[*ssa.Function]bool{}
+	scan = func(g *ssa.Function) {
+		if scanned[g] {
+			return
+		}
+		scanned[g] = true
+		for _, a := range g.AnonFuncs {
+			scan(a)
+		}
+		for _, b := range g.Blocks {
+			for _, in := range b.Instrs {
+				ci, ok := in.(ssa.CallInstruction)
+				if !ok {
+					continue
+				}
+				cal := ci.Common().StaticCallee()
+				if cal == nil {
+					if mc, isMC := ci.Common().Value.(*ssa.MakeClosure); isMC {
+						cal, _ = mc.Fn.(*ssa.Function)
+					}
+				}
+				if cal == nil {
+					continue
+				}
+				if cal != probe && !(cal.Parent() == g && c.reachSync(cal)[probe]) {
+					continue
+				}
+				n++
+				var onPeer []string
+				for _, cd := range edgeConds(b) {
+					var walk func(v ssa.Value, d int)
+					walk = func(v ssa.Value, d int) {
+						if d > 4 || v == nil {
+							return
+						}
+						switch x := v.(type) {
+						case *ssa.BinOp:
+							walk(x.X, d+1)
+							walk(x.Y, d+1)
+						case *ssa.UnOp:
+							if _, sn, f, ok := fieldAddr(x.X); ok && sn == "modules/l4proxy.peer" {
+								onPeer = append(onPeer, "peer."+f)
+							}
+							walk(x.X, d+1)
+						case *ssa.Call:
+							if g2 := x.Call.StaticCallee(); g2 != nil && g2.Signature.Recv() != nil && strings.HasSuffix(typeStr(g2.Signature.Recv().Type()), "l4proxy.peer") {
+								onPeer = append(onPeer, g2.Name()+"()")
+							}
+							if strings.HasPrefix(calleeID(x), "sync/atomic.") && len(x.Call.Args) > 0 {
+								if _, sn, f, ok := fieldAddr(x.Call.Args[0]); ok && sn == "modules/l4proxy.peer" {
+									onPeer = append(onPeer, "peer."+f)
+								}
+							}
+						case *ssa.Convert:
+							walk(x.X, d+1)
+						}
+					}
+					walk(cd.V, 0)
+				}
+				r.check(len(onPeer) == 0, rule, fname(fn), fmt.Sprintf("probe#%d", n), c.ipos(ci), "every peer is probed", "the probe of a peer is started only under a condition on "+strings.Join(dedup(onPeer), ", ")+": a peer in that state is not checked, keeps its health flag, and stays in rotation while it refuses new connections")
+			}
+		}
+	}
+	scan(fn)
+	if n == 0 {
+		r.bad(rule, fname(fn), "probes", c.pos(fn.Pos()), "undecided: no start of a probe found")
 	}
 }
